@@ -762,10 +762,14 @@ class RewriteRuleSet:
                             initializer.name = f"{initializer.name}_{suffix}"
                         initializers[initializer.name] = initializer  # type: ignore[index]
                 # For patterns with a single output-node, "node" can serve as the insertion-point.
-                # For patterns with multiple output-nodes the replacement is inserted after "node"
-                # (the node matched by the first output) as well, but a consumer of another output
-                # may precede it: the graph is sorted again after the pass (see below).
-                if not rule._target_pattern.has_single_output_node:  # pylint: disable=protected-access
+                # For patterns with multiple output-nodes, or multiple outputs below one output-node,
+                # the replacement is inserted after "node" (the node matched by the first output)
+                # as well, but a consumer of another output may precede it: the graph is sorted
+                # again after the pass (see below).
+                if (
+                    not rule._target_pattern.has_single_output_node  # pylint: disable=protected-access
+                    or rule._target_pattern.num_outputs > 1  # pylint: disable=protected-access
+                ):
                     needs_sort = True
                 onnxscript.optimizer.basic_constant_propagation(delta.new_nodes)
                 if rule.as_function:
